@@ -56,7 +56,7 @@ fn c16_kernel_hasher_struct() {
 
 #[kani::proof]
 #[kani::unwind(4)]
-//@ tier=quick class=core cap=600 bounds="Fnv1a64Hasher: two successive updates of 0..=2 bytes each continue from the previous state"
+//@ tier=quick class=core cap=1800 bounds="Fnv1a64Hasher: two successive updates of 0..=2 bytes each continue from the previous state"
 fn c16_kernel_hasher_two_updates() {
     let a: [u8; 2] = kani::any();
     let b: [u8; 2] = kani::any();
@@ -83,7 +83,7 @@ fn c16_kernel_hasher_two_updates() {
 
 #[kani::proof]
 #[kani::unwind(10)]
-//@ tier=quick class=core cap=900 bounds="leaf schema U8 x every path of 0..=3 UTF-8 bytes through BOTH public constructors: chain starts at the basis, digest little-endian, both agree"
+//@ tier=quick class=core cap=1800 bounds="leaf schema U8 x every path of 0..=3 UTF-8 bytes through BOTH public constructors: chain starts at the basis, digest little-endian, both agree"
 fn c16_leaf_both_constructors() {
     let path = Path::any();
     let want = step(ref_fnv(REF_BASIS, path.bytes()), 0x3D).to_le_bytes();
